@@ -199,7 +199,7 @@ fn q_closed(x: f64) -> f64 {
 
 pub fn search_c19(rng: &mut Rng, thorough: bool) -> SearchResult {
     let mut r = SearchResult::default();
-    r.rule = "latitudes on a dense grid over [-pi/2, pi/2] + random + endpoints: both round trips <= 1e-12 rad, oddness, fixed points, strict monotonicity between neighbouring samples, closed-form WGS84 authalic latitude within 1e-11 for |lat| <= 89 deg (independent f64 implementation of asin(q/q_p)); lon/lat -> sphere -> lon/lat for lon in [-540, 540] incl. poles and antimeridian: same physical point within 1e-12 rad. non-trivial = distinct sample points".into();
+    r.rule = "latitudes on a dense grid over [-pi/2, pi/2] + random + endpoints: both round trips <= 1e-12 rad, oddness, fixed points, strict monotonicity between neighbouring samples, closed-form WGS84 authalic latitude within 1e-11 for |lat| <= 89 deg (independent f64 implementation of asin(q/q_p)); lon/lat -> sphere -> lon/lat (both through the angles and through the unit vector) for lon in [-540, 540] incl. poles, antimeridian and points 1e-6 .. 1e-12 degrees from the coordinate planes of the internal frame: same physical point within 1e-12 rad. non-trivial = distinct sample points".into();
     let a = AuthalicProjection;
     let h = std::f64::consts::FRAC_PI_2;
     let n = if thorough { 2_000_000 } else { 200_000 };
@@ -262,6 +262,26 @@ pub fn search_c19(rng: &mut Rng, thorough: bool) -> SearchResult {
         r.evaluations += 1;
         if !(ang <= 1e-12) {
             r.viol("lonlat", format!("lon/lat round trip of ({}, {}) returns ({}, {}): {:e} rad apart", lon, lat, back.longitude(), back.latitude(), ang));
+        }
+        // ... and all the way through the Cartesian form (to_cartesian / to_spherical), in particular for points within
+        // 1e-7 .. 1e-12 degrees of the coordinate planes of the internal frame (longitudes -93, -3, 87, 177; the equator)
+        {
+            let (lon3, lat3) = match rng.below(4) {
+                0 => ([-93.0, -3.0, 87.0, 177.0][rng.below(4) as usize] + (rng.unit() - 0.5) * 10f64.powf(-(6.0 + 6.0 * rng.unit())), lat),
+                1 => (lon, (rng.unit() - 0.5) * 10f64.powf(-(6.0 + 6.0 * rng.unit()))),
+                _ => (lon, lat),
+            };
+            let c = to_cartesian(from_lon_lat(LonLat::new(lon3, lat3)));
+            let back3 = to_lon_lat(a5::core::coordinate_transforms::to_spherical(c));
+            let w1 = lonlat_vec(LonLat::new(lon3, lat3));
+            let w2 = lonlat_vec(back3);
+            let cr3 = [w1[1] * w2[2] - w1[2] * w2[1], w1[2] * w2[0] - w1[0] * w2[2], w1[0] * w2[1] - w1[1] * w2[0]];
+            let ang3 = (cr3[0] * cr3[0] + cr3[1] * cr3[1] + cr3[2] * cr3[2]).sqrt().atan2(dot(w1, w2));
+            let norm = (c.x() * c.x() + c.y() * c.y() + c.z() * c.z()).sqrt();
+            r.evaluations += 1;
+            if !(ang3 <= 1e-12) || !((norm - 1.0).abs() <= 1e-12) {
+                r.viol("lonlat", format!("lon/lat -> unit vector -> lon/lat of ({}, {}) returns ({}, {}): {:e} rad apart (|v| - 1 = {:e})", lon3, lat3, back3.longitude(), back3.latitude(), ang3, norm - 1.0));
+            }
         }
         // the internal point is the same for longitudes 360 degrees apart
         let c1 = to_cartesian(sp);
